@@ -8,6 +8,7 @@ numpy.longdouble for the larger shapes, of both the state-space (n-form) and
 the measurement-space (m-form) expressions.
 """
 import functools
+import itertools
 import sys
 from fractions import Fraction
 
@@ -23,13 +24,21 @@ LEVEL = "exploration"
 RULE = ("full product of shapes (n, m) in N x M (quick: N={1,2,3,5,30}, "
         "M={1,2,4,40}; thorough: N={1,2,3,4,5,10,20,30}, "
         "M={1,2,3,4,5,12,25,40}) x Jacobian families (zero, selector, rank "
-        "1, dense triangular, the same /10 and /64, banded weighting "
+        "1, dense triangular, the same /10, /64 and /1e9, banded weighting "
         "functions, rank-deficient) x pairs (S_a, S_y) from 7 families "
         "(identity, diag 1e-2..1e2, AR(1) rho .5/.9 at scale 1, 1e-2, 1e2, "
         "AR(.9) with std .5/1/2) where one of the two is additionally "
         "scaled by 1e-2, 1e-4, 1e-6 (thorough: 1e-1 ... 1e-6; vanishing "
-        "noise / vanishing prior variance). Matrices of one size that "
-        "coincide bit for bit are enumerated once, so cases are distinct by "
+        "noise / vanishing prior variance); with the Jacobian /1e9 every S_y "
+        "is multiplied by 1e-18 (the same problem in other measurement "
+        "units). Every case is evaluated with all arrays C-ordered, "
+        "and again with all arrays Fortran-ordered if neither covariance is "
+        "scaled (thorough: every case); the arrays of one order are handed "
+        "to error_covariance_matrix, retrieval_gain_matrix, "
+        "averaging_kernel_matrix and retrieval_noise one after the other "
+        "and compared with the originals after every call. Matrices of one "
+        "size that coincide bit for bit are enumerated once, so cases are "
+        "distinct by "
         "construction. Cases whose first-order float64 error bound exceeds "
         "1/4 (composite problem too ill-conditioned for any statement about "
         "a float64 result) are skipped and counted. Exact Fraction reference "
@@ -38,7 +47,15 @@ RULE = ("full product of shapes (n, m) in N x M (quick: N={1,2,3,5,30}, "
         "K^T) and the relative tolerances on S, G and A are all <= 1e-3 "
         "(the comparison decides).")
 ASSUMPTIONS = [
-    "inputs are float64 ndarrays; covariances are exactly symmetric",
+    "inputs are float64 ndarrays, contiguous in C or Fortran order (no "
+    "strided views, no other dtypes); covariances are exactly symmetric",
+    "results for Fortran-ordered inputs that are bit-identical to those for "
+    "C-ordered inputs are not judged again; others must meet the value "
+    "tolerances (the structural clauses - symmetry, definiteness, "
+    "eigenvalues, limits - are judged on the C-ordered results only)",
+    "a function that changes one of its input arrays is reported "
+    "(inputs/modified-by-...) although the statement only implies this "
+    "through the identities between calls on the same arrays",
     "tolerances are first-order forward error bounds of a float64 "
     "evaluation (every inversion: relative error c cond_2, every product: "
     "c |.||.|, c = 8 max(n, m) u; c17_ref.Reference._tolerances); for the "
@@ -66,7 +83,21 @@ TIERS = {
 COV_FAMILIES = ["I", "diag", "ar.5", "ar.9", "ar.5/100", "ar.9x100",
                 "ar.9std"]
 K_FAMILIES = ["zero", "selector", "rank1", "tri", "tri/10", "tri/64", "band",
-              "rankdef"]
+              "rankdef", "tri*1e-9"]
+# Jacobian family -> factor on every S_y it is enumerated with: a measurement
+# in other units (K u, S_y u^2) leaves K^T S_y^-1 K and the conditioning as
+# they are, while no entry of K is of order 1 any more
+SY_FACTOR = {"tri*1e-9": 1e-18}
+
+
+def layouts_of(tier, sa_scale, sy_scale):
+    """Memory orders of the arrays handed to typhon: Fortran order (the one
+    LAPACK can work on in place) in addition where it is affordable."""
+    if tier == "thorough" or sa_scale == sy_scale == 1.0:
+        return ("C", "F")
+    return ("C",)
+
+
 DECISIVE = 1e-3
 
 
@@ -103,13 +134,13 @@ def covariance(name, k, scale=1.0):
 
 
 @functools.lru_cache(maxsize=None)
-def distinct_covariances(k, scales):
+def distinct_covariances(k, scales, factor=1.0):
     """(family, scale) pairs in enumeration order, without those whose
-    matrix already occurred."""
+    matrix (at scale * factor) already occurred."""
     seen, out = set(), []
     for scale in scales:
         for name in COV_FAMILIES:
-            ident = covariance(name, k, scale).tobytes()
+            ident = covariance(name, k, scale * factor).tobytes()
             if ident not in seen:
                 seen.add(ident)
                 out.append((name, scale))
@@ -132,6 +163,8 @@ def jacobian(name, m, n):
         f = lambda i, j: tri(i, j) / 10                          # noqa: E731
     elif name == "tri/64":
         f = lambda i, j: tri(i, j) / 64                          # noqa: E731
+    elif name == "tri*1e-9":
+        f = lambda i, j: tri(i, j) / 10 ** 9                     # noqa: E731
     elif name == "band":
         f = lambda i, j: max(0, 3 - abs((i * n) // m - j))       # noqa: E731
     elif name == "rankdef":
@@ -163,8 +196,9 @@ def vectors(n, m):
 
 def shards(tier, seed):
     ns, ms, scales = TIERS[tier]
-    for m in ms:
-        distinct_covariances(m, scales)       # cached before the fork
+    for m in ms:                              # cached before the fork
+        for factor in {1.0} | set(SY_FACTOR.values()):
+            distinct_covariances(m, scales, factor)
     out = []
     for n in ns:
         for m in ms:
@@ -183,13 +217,19 @@ class HarnessProblem(Exception):
     pass
 
 
-def call(func, *args):
-    """-> (value, None) or (None, violation)."""
+def call(func, originals, args, *more):
+    """func(*args, *more) -> (value, None) or (None, violation); args are
+    the caller's arrays, which must still equal `originals` afterwards."""
     try:
-        return func(*args), None
+        value = func(*args, *more)
     except Exception as e:
         return None, ("exception/%s/%s" % (func.__name__, type(e).__name__),
                       None, repr(e)[:200], "")
+    for number, (before, after) in enumerate(zip(originals, args)):
+        if not np.array_equal(before, after):
+            return None, ("inputs/modified-by-" + func.__name__, before,
+                          after, "argument %d" % number)
+    return value, None
 
 
 def well_formed(name, value, shape):
@@ -221,25 +261,33 @@ def rel_tolerance(R):
                ((R.tol_S, R.S), (R.tol_G, R.G), (R.tol_A, R.A)) if tol > 0)
 
 
-def check_case(R, K, Sa, Sy, stats=None):
-    """None or (key, expected, observed, msg). `stats` (a ShardResult)
-    receives the decidability counters and the measured margins."""
+def check_case(R, K, Sa, Sy, layouts, stats=None):
+    """None or (key, expected, observed, msg). `layouts`: memory orders of
+    the arrays handed to typhon ("C" first). `stats` (a ShardResult) receives
+    the decidability counters and the measured margins."""
     from typhon.retrieval import oem
     m, n = K.shape
     fld = R.fld
     lift, eye = fld.lift, fld.eye(n)
 
+    # One set of arrays per memory order, handed to all functions one after
+    # the other (Fortran order is the one that LAPACK can work on in place).
+    originals = (K, Sa, Sy)
+    inputs = {layout: tuple(np.array(x, order=layout) for x in originals)
+              for layout in layouts}
     outs = {}
-    for name, func, shape in (
-            ("error_covariance", oem.error_covariance_matrix, (n, n)),
-            ("gain", oem.retrieval_gain_matrix, (n, m)),
-            ("averaging_kernel", oem.averaging_kernel_matrix, (n, n))):
-        value, bad = call(func, K.copy(), Sa.copy(), Sy.copy())
-        bad = bad or well_formed(name, value, shape)
-        if bad:
-            return bad
-        outs[name] = np.asarray(value)
-    S_t, G_t, A_t = (lift(outs[k]) for k in
+    for layout in layouts:
+        for name, func, shape in (
+                ("error_covariance", oem.error_covariance_matrix, (n, n)),
+                ("gain", oem.retrieval_gain_matrix, (n, m)),
+                ("averaging_kernel", oem.averaging_kernel_matrix, (n, n))):
+            value, bad = call(func, originals, inputs[layout])
+            bad = bad or well_formed(name, value, shape)
+            if bad:
+                return bad[:3] + ((bad[3] + " inputs in %s order"
+                                   % layout).strip(),)
+            outs[name, layout] = np.asarray(value)
+    S_t, G_t, A_t = (lift(outs[k, "C"]) for k in
                      ("error_covariance", "gain", "averaging_kernel"))
 
     def off(name, got, want, tol, msg):
@@ -266,13 +314,14 @@ def check_case(R, K, Sa, Sy, stats=None):
     shift = 0.0 if pd_decidable else R.tol_S
     if not ref.is_pd(sym + fld.scalar(shift) * eye):
         return ("error_covariance/not-positive-definite", None,
-                outs["error_covariance"], "shift %.3g" % shift)
+                outs["error_covariance", "C"], "shift %.3g" % shift)
     # S_a - S is only semi-definite (rank K < n): Weyl with ||dS|| <= tol_S,
     # plus the round-off of the longdouble pivots themselves.
     shift = 2 * R.tol_S + 2 * n * fld.eps * nSa
     if not ref.is_pd(R.Sa - sym + fld.scalar(shift) * eye):
         return ("error_covariance/larger-than-prior", None,
-                outs["error_covariance"], "S_a - S + %.3g I not PD" % shift)
+                outs["error_covariance", "C"],
+                "S_a - S + %.3g I not PD" % shift)
 
     # --- gain: both forms of the statement (identical in the exact field)
     for key, want in (("gain/value-n-form", R.G), ("gain/value-m-form", R.Gm)):
@@ -294,7 +343,7 @@ def check_case(R, K, Sa, Sy, stats=None):
     # >= 1/(||Sa|| ||M||); eigenvector matrix S^1/2 Q, so Bauer-Fike moves
     # every eigenvalue of the float64 result by at most sqrt(cond S) ||dA||
     # (4u: rounding of 1 - gap below).
-    A64 = outs["averaging_kernel"]
+    A64 = outs["averaging_kernel", "C"]
     tau = (nS * nM) ** 0.5 * (R.tol_A + R.c * float(np.linalg.norm(A64))) \
         + 4 * ref.U
     gap = 1.0 / (nSa * nM)
@@ -322,8 +371,8 @@ def check_case(R, K, Sa, Sy, stats=None):
     # --- linear error maps
     xs, es = vectors(n, m)
     for x, x_a in xs:
-        value, bad = call(oem.smoothing_error, x.copy(), x_a.copy(),
-                          A64.copy())
+        value, bad = call(oem.smoothing_error, (x, x_a, A64),
+                          (x.copy(), x_a.copy(), A64.copy()))
         bad = bad or well_formed("smoothing_error", value, (n,))
         if bad:
             return bad
@@ -332,17 +381,34 @@ def check_case(R, K, Sa, Sy, stats=None):
                   R.c * norm_A * ref.fro(d), "A (x - x_a)")
         if bad:
             return bad
-    for e_y in es:
-        value, bad = call(oem.retrieval_noise, K.copy(), Sa.copy(),
-                          Sy.copy(), e_y.copy())
+    for layout, e_y in itertools.product(layouts, es):
+        value, bad = call(oem.retrieval_noise, originals, inputs[layout],
+                          e_y.copy())
         bad = bad or well_formed("retrieval_noise", value, (n,))
         if bad:
             return bad
         bad = off("retrieval_noise/value", lift(value), R.G @ lift(e_y),
                   (R.tol_G + R.c * ref.fro(R.G)) * ref.fro(lift(e_y)),
-                  "G e_y")
+                  "G e_y, inputs in %s order" % layout)
         if bad:
             return bad
+
+    # --- Fortran-ordered inputs: the same values (bit for bit, or at least
+    # within the same tolerances)
+    same_bits = True
+    for name, wants, tol in (
+            ("error_covariance", (("value", R.S),), R.tol_S),
+            ("gain", (("value-n-form", R.G), ("value-m-form", R.Gm)), R.tol_G),
+            ("averaging_kernel", (("value", R.A),), R.tol_A)):
+        if "F" not in layouts or \
+                np.array_equal(outs[name, "F"], outs[name, "C"]):
+            continue
+        same_bits = False
+        for what, want in wants:
+            bad = off("%s/%s" % (name, what), lift(outs[name, "F"]), want,
+                      tol, "inputs in F order")
+            if bad:
+                return bad
 
     if stats is not None:
         stats.count("exact_reference_cases" if fld.exact
@@ -352,6 +418,10 @@ def check_case(R, K, Sa, Sy, stats=None):
         stats.count("identity_limit_reached_1e-3",
                     int(bound_I is not None and bound_I < 1e-3))
         stats.count("zero_limit_reached_1e-3", int(bound_0 < 1e-3))
+        if "F" in layouts:
+            stats.count("fortran_order_cases")
+            stats.count("fortran_order_results_bit_identical",
+                        int(same_bits))
     return None
 
 
@@ -364,11 +434,13 @@ def run_shard(shard):
             (kname, "full-column-rank" if full else "rank-deficient"))
     base = dict(n=n, m=m, K=kname, Sa=fa, sa_scale=sa_scale)
     last = None
-    for fy, sy_scale in distinct_covariances(m, TIERS[tier][2]):
+    factor = SY_FACTOR.get(kname, 1.0)
+    for fy, sy_scale in distinct_covariances(m, TIERS[tier][2], factor):
         if sa_scale != 1.0 and sy_scale != 1.0:
             continue
-        case = dict(base, Sy=fy, sy_scale=sy_scale)
-        Sy = covariance(fy, m, sy_scale)
+        layouts = layouts_of(tier, sa_scale, sy_scale)
+        case = dict(base, Sy=fy, sy_scale=sy_scale, layouts=layouts)
+        Sy = covariance(fy, m, sy_scale * factor)
         try:
             R = reference(K, Sa, Sy, full)
             if R is None:
@@ -380,9 +452,9 @@ def run_shard(shard):
                      and rel <= DECISIVE)
             res.count("decisive_cases", int(rel <= DECISIVE))
             res.maximum("rel_tol", rel)
-            bad = check_case(R, K, Sa, Sy, res)
+            bad = check_case(R, K, Sa, Sy, layouts, res)
             if bad is not None:
-                again = check_case(R, K, Sa, Sy)
+                again = check_case(R, K, Sa, Sy, layouts)
                 if again is None or again[0] != bad[0]:
                     res.error("NONDETERMINISM in %r" % (case,))
                 res.violation(bad[0], case, bad[1], bad[2], bad[3])
@@ -396,11 +468,12 @@ def run_shard(shard):
 def replay(case):
     K = jacobian(case["K"], case["m"], case["n"])
     Sa = covariance(case["Sa"], case["n"], case["sa_scale"])
-    Sy = covariance(case["Sy"], case["m"], case["sy_scale"])
+    Sy = covariance(case["Sy"], case["m"],
+                    case["sy_scale"] * SY_FACTOR.get(case["K"], 1.0))
     R = reference(K, Sa, Sy, ref.exact_rank(K) == case["n"])
     if R is None:
         return dict(ok=True, msg="outside the domain (ill-conditioned)")
-    bad = check_case(R, K, Sa, Sy)
+    bad = check_case(R, K, Sa, Sy, tuple(case["layouts"]))
     if bad is None:
         return dict(ok=True)
     return dict(ok=False, key=bad[0], expected=bad[1], observed=bad[2],
